@@ -220,6 +220,14 @@ func (p *Program) assumeGlobalFacts(e *Exec, fn *ssa.Function, h0 *Heap) {
 		val := app("select", h0.get(u.cellVar(so)), ref)
 		switch gf.Kind {
 		case "regexp", "nonnil":
+			if so == SSlice {
+				vc.assume(not(eq(app("s_base", val), "0")))
+				used = true
+				continue
+			}
+			if so != SInt {
+				continue
+			}
 			vc.assume(not(eq(val, "0")))
 			used = true
 			if gf.Kind == "regexp" {
